@@ -433,6 +433,8 @@ def contracts():
                     result="bool",
                     ensures=[P("success-means-ready-and-on-connect-called-once", "implies(result, self._connection_state is RS.READY and n_on_connect == 1 and self._tries == 0)"),
                              P("failure-means-disconnected-and-no-on-connect", "implies(not result, self._connection_state is RS.DISCONNECTED and n_on_connect == 0)"),
+                             # the back-off grows with every failed attempt, whatever stage it failed at (auth errors jump to the maximum)
+                             P("a-failed-attempt-counts-towards-the-backoff", "implies(not result, self._tries == old(self._tries) + 1 or self._tries == 100)"),
                              P("stops-listening-once-the-socket-is-open", "True")],
                     raises={"CancelledError": {"kind": "auxiliary"}}),
     ]
